@@ -85,7 +85,7 @@ pub fn tracegen_only(prop: &str, seed: u64, runs: usize, only: Option<usize>) ->
                 let mut v = vec![];
                 for k in 0..3u64 {
                     v.extend(general_run(prop, run * 3 + k as usize, s, Knobs { max_virtuals: 1, p_c: 0.05, p_x: 0.05, bidir: true, ..Knobs::control_flow() },
-                        Opt { layout_seed: Some(s.wrapping_add(k * 7919)), layout: if k == 0 { Lay::Canonical } else { Lay::Random }, ..Opt::default() }));
+                        Opt { layout_seed: Some(s.wrapping_add(k * 7919)), layout: if k == 0 { Lay::Canonical } else { Lay::Random }, group: (run as u64, k + 1), ..Opt::default() }));
                 }
                 v
             }
@@ -146,6 +146,8 @@ pub struct Opt {
     pub many_outputs_in_header: bool,
     /// layout chosen independently of the program seed (layout variants of one program, C20)
     pub layout_seed: Option<u64>,
+    /// (group, variant) of a layout group; (0, 0) = none
+    pub group: (u64, u64),
 }
 
 impl Default for Opt {
@@ -162,6 +164,7 @@ impl Default for Opt {
             random_prefix: false,
             many_outputs_in_header: false,
             layout_seed: None,
+            group: (0, 0),
         }
     }
 }
@@ -288,7 +291,8 @@ fn general_run(prop: &str, run: usize, seed: u64, knobs: Knobs, opt: Opt) -> Vec
     let own_write = g.rng.gen_bool(0.5);
     let max_rows = if opt.random_prefix && g.rng.gen_bool(0.5) { g.rng.gen_range(0..10) } else { opt.max_rows };
     let spec = policy_for(&test, &opt, seed, &mut g.rng, 10);
-    let cfg = RunCfg { run, prop: prop.to_string(), own_write, max_rows, rng_seed: seed, after_none: opt.after_none, cfg_note: json!({"policy": format!("{:?}", spec)}) };
+    let cfg = RunCfg { run, prop: prop.to_string(), own_write, max_rows, rng_seed: seed, after_none: opt.after_none,
+        cfg_note: json!({"policy": format!("{:?}", spec), "group": opt.group.0, "variant": opt.group.1}) };
     let prep = Prepared { test, printed, layout };
     trace_run(&prep, &cfg, make_policy(spec))
 }
@@ -720,7 +724,7 @@ fn sched_run(prop: &str, run: usize, seed: u64) -> Vec<J> {
     use crate::driver::*;
     use digital_test_runner::errors::IterationError;
     use digital_test_runner::verif;
-    let mut g = Gen::new(seed, Knobs { p_c: 0.08, p_x: 0.05, bidir: true, max_stmts: 10, max_virtuals: 1, allow_random: run % 3 == 0, p_device: if run % 2 == 0 { 0.0 } else { 0.3 }, ..Knobs::control_flow() });
+    let mut g = Gen::new(seed, Knobs { p_c: 0.08, p_x: 0.05, bidir: true, max_stmts: 10, max_virtuals: 1, allow_random: false, p_device: if run % 2 == 0 { 0.0 } else { 0.3 }, ..Knobs::control_flow() });
     if run % 2 == 0 {
         g.k.max_virtuals = 0;
     }
@@ -752,7 +756,7 @@ fn sched_run(prop: &str, run: usize, seed: u64) -> Vec<J> {
     out.push(json!({"ev":"begin","run":run,"prop":prop,"load":load_kind,"load_msg":load_res,"test":test_to_spec(&test, &printed, &observed),
         "own_write":true,"cfg":{"sched":true},"text":printed.text,"rng_seed":seed.to_string()}));
     let Some(tc) = tc else {
-        out.push(json!({"ev":"end","run":run}));
+        out.push(json!({"ev":"end","run":run,"group":0,"variant":0,"load":"ok"}));
         return out;
     };
     let table = driver_table(&test);
@@ -761,6 +765,7 @@ fn sched_run(prop: &str, run: usize, seed: u64) -> Vec<J> {
     // four drivers with different answers; two or three iterators run interleaved, the rest afterwards (re-iteration)
     let mut drivers: Vec<DrvW> = vec![];
     let mut logs = vec![];
+    let solo_rng = g.rng.clone();
     for k in 0..4u64 {
         let spec = policy_for(&test, &opt, seed.wrapping_add(k * 101), &mut g.rng, 8);
         let (core, log) = Core::new(table.clone(), make_policy(spec));
@@ -796,6 +801,7 @@ fn sched_run(prop: &str, run: usize, seed: u64) -> Vec<J> {
         its.push(it);
     }
     // the interleaving
+    let mut items_of_first: Vec<J> = vec![];
     let mut nerr = vec![0usize; 4];
     let mut budget = 60;
     while budget > 0 && its.iter().any(|i| i.is_some()) {
@@ -835,12 +841,69 @@ fn sched_run(prop: &str, run: usize, seed: u64) -> Vec<J> {
         } else {
             vec![]
         };
+        if k == 0 {
+            items_of_first.push(json!({"item": item_j, "calls": calls, "vars": vars_j}));
+        }
         out.push(json!({"ev":"next","run":run,"it":k + 1,"rng":rng,"calls":calls,"answer":answer,"item":item_j,"vars":vars_j}));
         if stop {
             its[k] = None;
         }
     }
+    let first_unfinished = its[0].is_some();
     drop(its);
+    // C15, differential: the first iterator's items, obtained while the others were stepped in between, equal the items
+    // of an iterator that runs alone against a driver giving the same answers
+    let solo_same = {
+        // the same policy as driver 0: rebuild it exactly as above (same rng stream)
+        let mut r2 = solo_rng.clone();
+        let spec = policy_for(&test, &opt, seed, &mut r2, 8);
+        let (core, log) = Core::new(table.clone(), make_policy(spec));
+        let mut d = DrvW(core);
+        verif::set_seed_override(Some(seed));
+        let _ = verif::take_rng_log();
+        let mut same = true;
+        if let Ok(Ok(mut it)) = guarded(|| tc.try_iter(&mut d)) {
+            let _ = take(&log);
+            let mut errs = 0;
+            for want in items_of_first.iter() {
+                let item = guarded(|| it.next());
+                let _ = rng_to_spec();
+                let (calls, _answer) = take(&log);
+                let item_j = match &item {
+                    Err(p) => json!({"k":"panic","msg":p}),
+                    Ok(None) => json!({"k":"none"}),
+                    Ok(Some(Err(IterationError::Driver(DrvErr(id))))) => json!({"k":"err","class":"driver","id":id}),
+                    Ok(Some(Err(IterationError::Runtime(_)))) => json!({"k":"err","class":"runtime","id":0}),
+                    Ok(Some(Ok(row))) => row_to_spec(row),
+                };
+                let vars_j: Vec<J> = if item.is_ok() {
+                    let mut v: Vec<(String, i64)> = guarded(|| it.vars()).unwrap_or_default().into_iter().collect();
+                    v.sort();
+                    v.into_iter().map(|(n, v)| json!({"n": n, "v": limbs(v)})).collect()
+                } else {
+                    vec![]
+                };
+                if json!({"item": item_j, "calls": calls, "vars": vars_j}) != *want {
+                    same = false;
+                    break;
+                }
+                if item_j["k"] == "err" {
+                    errs += 1;
+                    if errs >= 2 {
+                        break;
+                    }
+                }
+                if item_j["k"] == "none" || item_j["k"] == "panic" {
+                    break;
+                }
+            }
+        } else if !items_of_first.is_empty() {
+            same = false;
+        }
+        let _ = first_unfinished;
+        same
+    };
+    out.push(json!({"ev":"solo","run":run,"same":solo_same}));
     // static iteration: succeeds exactly when the program reads no outputs, and then agrees with every dynamic run
     verif::set_seed_override(Some(seed.wrapping_add(77)));
     let _ = verif::take_rng_log();
@@ -871,7 +934,7 @@ fn sched_run(prop: &str, run: usize, seed: u64) -> Vec<J> {
         }
     }
     verif::set_seed_override(None);
-    out.push(json!({"ev":"end","run":run}));
+    out.push(json!({"ev":"end","run":run,"group":0,"variant":0,"load":"ok"}));
     out
 }
 
